@@ -1,3 +1,57 @@
-import NettyVerif.Proofs.Chan
+import NettyVerif.Proofs.ChanClose
+/-! # C11 — Writes on a closed channel fail and transmit nothing
+
+Chan LTS with the repaired entry check: every write entry point first evaluates `closedError()`,
+i.e. reads the atomic closed flag (`beginWrite` if open, `rejectWrite` if closed). -/
 namespace NettyVerif.C11
+open NettyVerif.Chan
+variable {α : Type}
+
+/-- the closed flag never resets -/
+theorem C11_closed_monotone (s s' : St α) (a : Act α) (h : step s a = some s') (hc : s.closed = true) :
+    s'.closed = true := by
+  cases a <;> simp only [step] at h <;> (repeat' split at h) <;> simp at h <;> subst h <;> simp_all
+
+/-- once any Close has won the flag, a write call's entry check can only reject, and rejecting
+    changes nothing -/
+theorem C11_reject (s : St α) (hc : s.closed = true) :
+    step s .beginWrite = none ∧ step s .rejectWrite = some s := by
+  simp [step, hc]
+
+/-- "no new call can be accepted": closed, and no call that passed its entry check earlier is still
+    on its way to the queue or the transport -/
+def Sealed (s : St α) : Prop := s.closed = true ∧ s.inflight = 0 ∧ s.lockHeld = false
+
+theorem C11_sealed_step (s s' : St α) (a : Act α) (h : step s a = some s') (hs : Sealed s) :
+    Sealed s' ∧ s'.accepted = s.accepted := by
+  obtain ⟨h1, h2, h3⟩ := hs
+  cases a <;> simp only [step] at h <;> (repeat' split at h) <;> simp at h <;> (try subst h) <;>
+    simp_all [Sealed] <;> omega
+
+/-- **after Close has returned** (closed flag set) and the calls that were already past their entry
+    check have finished, nothing is ever accepted again, whatever happens: every later write is
+    rejected (`C11_reject`) and `accepted` — hence the bytes that can reach the transport — is frozen,
+    for every Close argument (the argument does not occur in the model: nil behaves like any error) -/
+theorem C11_nothing_accepted_after_close : ∀ (acts : List (Act α)) (s s' : St α), Sealed s → run s acts = some s' →
+    s'.accepted = s.accepted
+  | [], s, s', _, h => by simp [run] at h; subst h; rfl
+  | a :: as, s, s', hs, h => by
+    simp only [run] at h
+    cases hst : step s a with
+    | none => simp [hst] at h
+    | some s1 =>
+      simp [hst] at h
+      obtain ⟨hs1, he⟩ := C11_sealed_step s s1 a hst hs
+      rw [C11_nothing_accepted_after_close as s1 s' hs1 h, he]
+
+/-- non-vacuity: Close(nil) wins, a later write call is rejected, the queue stays as it was -/
+example : (run ({ sync := false, cap := 2 } : St Nat)
+    [.closeCas, .closeLen, .closeLoad, .closeSetErr, .closeTr, .closeCancel, .closeFire, .rejectWrite]).map
+      (fun s => (s.closed, s.accepted, s.inflight)) = some (true, [], 0) := by decide
+
 end NettyVerif.C11
+
+#print axioms NettyVerif.C11.C11_closed_monotone
+#print axioms NettyVerif.C11.C11_reject
+#print axioms NettyVerif.C11.C11_sealed_step
+#print axioms NettyVerif.C11.C11_nothing_accepted_after_close
